@@ -261,6 +261,14 @@ class Gen:
             if r.random() < 0.25:
                 body.append({"k": "case", "x": num(r.randint(0, 3))})  # fall-through label
             body.append({"k": "case", "x": num(r.randint(0, 3)), "body": self.block(d, "num")})
+        # case statements may be executed in a scope nested in the switch block (call / then): a match leaves that
+        # scope only, the rest of the switch block still runs and must not disturb the choice
+        if len(body) >= 1 and r.random() < 0.35:
+            i = r.randint(0, len(body) - 1)
+            j = r.randint(i + 1, len(body))
+            group = body[i:j]
+            wrapped = st_expr(call(group)) if r.random() < 0.5 else st_expr({"k": "if", "c": boolean(True), "th": group, "el": None})
+            body[i:j] = [wrapped] + ([self.new_mark()] if r.random() < 0.5 else [])
         # used as a number: there always is a selected block (a switch that selects nothing yields nil)
         body.insert(r.randint(0, len(body)), {"k": "default", "body": self.block(d, "num")})
         return body
